@@ -98,7 +98,7 @@ func genSignBytes() {
 				for _, sp := range gd.Specs {
 					vs := sp.(*ast.ValueSpec)
 					for j, n := range vs.Names {
-						if j < len(vs.Values) && (strings.Contains(n.Name, "GasEstimate") || strings.Contains(n.Name, "Fee")) {
+						if j < len(vs.Values) && strings.Contains(n.Name, "GasEstimate") {
 							cl = append(cl, fmt.Sprintf("  (%s, %s)", leanStr(f.Name.Name+"."+n.Name), leanStr(src(vs.Values[j]))))
 						}
 					}
